@@ -1,7 +1,8 @@
 -------------------------------- MODULE MiniGo --------------------------------
 (* C01 part 4.  A deterministic reference interpreter (big-step, one recursive operator per
    syntactic category) for a structured subset of Go: the REFERENCE semantics of
-     for with labelled break / continue (Go 1.22: a fresh copy of the loop variable per iteration),
+     for with labelled break / continue (Go 1.22: a fresh copy of the loop variable per iteration), with or
+     without a condition, an init and a post statement,
      for range over a string and over a slice, select with a default case only,
      switch with fallthrough, goto to a label of an enclosing statement list, closures capturing
      variables by reference, array and struct values (copied on assignment), pointers to structs,
@@ -119,6 +120,7 @@ RunDefers(ds, i, status, st) ==
 Eval(e, env, st) ==
   CASE e.e = "c" -> R(e.n, st)
     [] e.e = "str" -> R(e.b, st)
+    [] e.e = "nocond" -> R(TRUE, st)                      \* the absent condition of a for statement: "equivalent to the boolean value true"
     [] e.e = "v" -> R(st.heap[env[e.v]], st)
     [] e.e \in {"bin", "cmp"} ->
          LET ra == Eval(e.a, env, st) IN IF ra.p # <<>> THEN ra ELSE
